@@ -549,8 +549,10 @@ def tie_equal(glyphs, name, a, b):
     from fractions import Fraction
     import math
     ties = set()
-    for pts, _flip in R.resolve(glyphs, name):
-        for p in pts:
+    # exact outline as the CFF compiler sees it (quadratic runs elevated to cubics: the derived
+    # control points can sit on a boundary too)
+    for start, segs in R.ref_cycles(R.resolve(glyphs, name)):
+        for p in [start] + [q for sg in segs for q in sg[1:]]:
             for v in p[:2]:
                 v = Fraction(v)
                 if abs((v - math.floor(v)) - Fraction(1, 2)) < Fraction(1, 10 ** 6):
@@ -677,9 +679,10 @@ def run(case):
                         "glyph": n, "font": fi, "why": why}})
             else:
                 a, b = otf_render(t0, n), otf_render(t1, n)
-                if a != b and case["stratum"] != "static" and tie_equal(glyphs, n, a, b):
-                    # (interpolatable paths compute the same outline through different float
-                    # operations: an exact x.5 may round either way)
+                if a != b and tie_equal(glyphs, n, a, b):
+                    # (the two compiles reach the same outline through different float
+                    # operations - inlining a reference changes the order of the matrix
+                    # products: a coordinate within 10^-6 of x.5 may round either way, DESIGN 4.2)
                     bump("otf_equal_up_to_half_ties")
                 elif a != b:
                     violations.append({"mech": "otf_contours_changed", "detail": {
